@@ -215,6 +215,8 @@ class Interp:
             raise PyRaise(exc)
         bound.apply_defaults()
         frame = Frame(dict(bound.arguments), f.__globals__, None, label or src.qualname)
+        if not self.call_stack:
+            self.top_frame = frame        # locals of the function under verification (ghost access for its contract)
         if f.__closure__:
             for name, cell in zip(f.__code__.co_freevars, f.__closure__):
                 try:
@@ -718,14 +720,22 @@ class Interp:
     def e_BoolOp(self, node, frame):
         is_and = isinstance(node.op, ast.And)
         if self.ctx.spec_mode:
-            vals = [self.eval(v, frame) for v in node.values]
-            if any(isinstance(v, Sym) for v in vals):
-                ts = [sym.truth(v) for v in vals]
-                return sym.mk(z3.And(ts) if is_and else z3.Or(ts))
-            res = vals[0]
-            for v in vals[1:]:
-                res = (res and v) if is_and else (res or v)
-            return res
+            # formula building; concrete operands still short-circuit (so `x is None or x[i] > 0` is safe)
+            syms = []
+            last = None
+            for vn in node.values:
+                v = self.eval(vn, frame)
+                last = v
+                if isinstance(v, Sym):
+                    syms.append(sym.truth(v))
+                    continue
+                if is_and and not v:
+                    return v if not syms else False
+                if not is_and and v:
+                    return v if not syms else True
+            if syms:
+                return sym.mk(z3.And(syms) if is_and else z3.Or(syms))
+            return last
         val = None
         for v in node.values:
             val = self.eval(v, frame)
